@@ -137,4 +137,19 @@ CLAIMED = {
              "list and alloc() consults it first; the destructor releases both lists element-wise.",
         note="chunk disjointness arithmetic is not decided; std::vector and the user-supplied alloc/dealloc functions are trusted",
     ),
+    "C10": dict(
+        technique="memory-order lattice check over a hand-confirmed happens-before edge table (resolved atomic fields through accessors/aliases), fence "
+                  "must-pass rule, and TSAN-annotation backing rule on a second parse with the annotation macros expanded",
+        text="Not a race detector: decides that each of ~50 publication edges the algorithms need (task-set counter, ring slot sequence numbers, SPSC "
+             "cursors, Chase-Lev bottom/top + fences, completion events, future refcount and then-chain, RW lock word, arena/vector buffer publication, "
+             "spin locks, TimedTask handshake, pipeline counters) still has the orders that make it an edge; weakening one is a race in the C++ model, "
+             "strengthening never fires. TSAN annotations must be backed by a declared order; IGNORE regions are paired on all paths.",
+        note="absence of races outside the table is not decided; the table is confirmed by reading (DESIGN.md appendix A); consumeLoad is a known finding",
+    ),
+    "C16": dict(
+        technique="ownership typestate (path-sensitive) of functor parameters over clang CFGs of parallel_invoke and the task-set entry points",
+        text="Each functor of parallel_invoke is forwarded exactly once (first to schedule, rest to the recursion; base case invoked on the caller); every "
+             "task-set scheduling entry point runs its functor inline once or hands it to the pool once on every path, never both.",
+        note="completion (C02) and delivery by the pool (C01) are separate clauses",
+    ),
 }
